@@ -2,12 +2,16 @@
 import os, re
 import lib, troute
 
-IMPORTS = ["ImathVerif.Spec.MatSpec", "ImathVerif.Gen.C10Quat", "ImathVerif.Gen.C10Algo", "ImathVerif.Lemmas.C10Lemmas"]
+IMPORTS = ["ImathVerif.Spec.MatSpec", "ImathVerif.Gen.C10Quat", "ImathVerif.Gen.C10Algo", "ImathVerif.Gen.C10Interp",
+           "ImathVerif.Gen.C10Rot", "ImathVerif.Lemmas.C10Lemmas", "ImathVerif.Lemmas.C10Rot"]
 REQUIRED = [
     "Quat_mul", "Quat_conj", "Quat_rotateVector_eq_mulQuat", "Quat_rotateVector_eq_mulM33", "Quat_rotate_all_agree",
     "Quat_toMatrix33_mul", "Quat_toMatrix44_mul", "Quat_mul_inverse", "Quat_mul_inverse_of_ne_zero", "Quat_invert",
     "Quat_normalize_unit", "Quat_normalize_zero", "Quat_toMatrix33_orthonormal", "Quat_toMatrix33_det",
     "Quat_toMatrix33_rotation", "extractQuat_toMatrix44", "setAxisAngle_consistent", "setAxisAngle_consistent_real",
+    "slerp_eq", "slerp_unit", "slerpShortestArc_eq", "slerpShortestArc_unit", "slerp_endpoints", "slerp_endpoints_real",
+    "squad_keys", "spline_eq_squad", "spline_keys", "intermediate_unit", "exp_log", "setAxisAngle_axis_angle",
+    "setRotationMod_spec", "setRotationMod_carries", "rotationMatrixMod_eq",
 ]
 
 # which residue checks speak about which generated function (for the failing-input search of a broken theorem)
@@ -88,6 +92,7 @@ def run(chk):
     bins = troute.build_extractors(chk, [dict(name="sym_leaf", source="sym/sym_leaf.cpp"),
                                          dict(name="sym_c10", source="sym/sym_c10.cpp"),
                                          dict(name="sym_c10b", source="sym/sym_c10b.cpp"),
+                                         dict(name="sym_c10c", source="sym/sym_c10c.cpp"),
                                          dict(name="c10_residue", source="corr/c10_residue.cpp")])
     res_n = 12000 if chk.thorough else 1500
     if bins.get("sym_leaf") and bins.get("sym_c10"):
@@ -100,6 +105,10 @@ def run(chk):
             indexb, _ = troute.regenerate(chk, bins["sym_c10b"], "c10b", idx_deps=[leaf_index, c10_index])
             troute.tv(chk, bins["sym_c10b"], "c10b", 400 if chk.thorough else 64, idx_deps=[leaf_index, c10_index])
             index = index + indexb
+        if bins.get("sym_c10c"):
+            indexc, _ = troute.regenerate(chk, bins["sym_c10c"], "c10c", idx_deps=[leaf_index, c10_index])
+            troute.tv(chk, bins["sym_c10c"], "c10c", 2000 if chk.thorough else 400, idx_deps=[leaf_index, c10_index])
+            index = index + indexc
 
         cache = {}
 
